@@ -211,7 +211,7 @@ let drv_c10 args =
     done;
     let parse e =
       match String.split_on_char ':' e with
-      | [t; "ack"; sid; msg] -> (int_of_string t, 0, Sess.EFrame (Sess.mk SynAck (n_of_int (int_of_string sid)) (bytes_of_hex msg)))
+      | [t; "ack"; sid; msg] | [t; "ack"; sid; msg; _] -> (int_of_string t, 0, Sess.EFrame (Sess.mk SynAck (n_of_int (int_of_string sid)) (bytes_of_hex msg)))
       | [t; "fin"; sid] -> (int_of_string t, 0, Sess.EFrame (Sess.mk Fin (n_of_int (int_of_string sid)) []))
       | [t; "psh"; sid] -> (int_of_string t, 0, Sess.EFrame (Sess.mk Push (n_of_int (int_of_string sid)) [small.(1)]))
       | [t; "syn"; sid] -> (int_of_string t, 0, Sess.EFrame (Sess.mk Syn (n_of_int (int_of_string sid)) []))
@@ -221,6 +221,10 @@ let drv_c10 args =
       | [t; "rerr"] -> (int_of_string t, 0, Sess.EEof)
       | [t; "close"] -> (int_of_string t, 0, Sess.EClose)
       | _ -> failwith ("bad event " ^ e) in
+    let raw_sids = List.filter_map (fun e ->
+        match String.split_on_char ':' e with
+        | [_; "ack"; sid; _; "r"] -> Some (int_of_string sid)
+        | _ -> None) evs in
     let evs = List.map parse evs in
     let timers = List.init nopen (fun i -> (30000, 1, Sess.ETimeout (n_of_int (i + 1)))) in
     let all = List.stable_sort (fun (a, pa, _) (b, pb, _) -> compare (a, pa) (b, pb)) (evs @ timers) in
@@ -232,7 +236,9 @@ let drv_c10 args =
           let (st', w) = Sess.cstep cfg sidn x e in
           (match w with
            | Sess.Done Sess.OOk -> Printf.sprintf "ok@%d" t
-           | Sess.Done (Sess.OErr m) -> Printf.sprintf "srv.%08x@%d" (fnv m) t
+           | Sess.Done (Sess.OErr m) ->
+             if List.mem sid raw_sids then Printf.sprintf "srv.raw@%d" t
+             else Printf.sprintf "srv.%08x@%d" (fnv m) t
            | Sess.Done Sess.OClosed -> Printf.sprintf "closed@%d" t
            | Sess.Done Sess.OTimeout -> Printf.sprintf "timeout@%d" t
            | Sess.Waiting -> go (st', w) r) in
